@@ -50,7 +50,8 @@ func c08Eval(cs c08Case) *Case {
 	put("page.vuego", page)
 	put("other.vuego", "<p>other</p>")
 
-	c := &Case{Name: fmt.Sprintf("%+v", cs), Input: map[string]any{"case": cs}, Key: fmt.Sprintf("%+v", cs), Oracle: &Verdict{OK: true}, Tags: []string{fmt.Sprintf("calls:%d", len(cs.Calls)), "key:" + key}}
+	c := &Case{Name: fmt.Sprintf("%+v", cs), Op: true, Input: map[string]any{"op": "merge", "case": cs, "key": key, "theme": cs.Theme, "dataYml": cs.DataYml, "fm": cs.FM, "calls": cs.Calls},
+		Key: fmt.Sprintf("%+v", cs), Oracle: &Verdict{OK: true}, Tags: []string{fmt.Sprintf("calls:%d", len(cs.Calls)), "key:" + key}}
 	fail := func(cls, f string, a ...any) {
 		if c.Oracle.OK {
 			c.Oracle = &Verdict{OK: false, Class: cls, Detail: fmt.Sprintf(f, a...)}
@@ -138,8 +139,8 @@ func c08Eval(cs c08Case) *Case {
 		return tpl.Render(context.Background(), &buf)
 	}()
 	out := buf.String()
-	c.Impl = map[string]any{"out": out, "err": err != nil}
 	if err != nil {
+		c.Impl = map[string]any{"err": true}
 		fail("render-error", "%v", err)
 		return c
 	}
@@ -152,6 +153,7 @@ func c08Eval(cs c08Case) *Case {
 	if m := titleRe.FindStringSubmatch(out); m != nil {
 		attr = m[1]
 	}
+	c.Impl = got["mustache"]
 	if got["mustache"] != want {
 		fail("precedence:mustache", "{{ %s }} shows %q, expected %q (case %+v)", key, got["mustache"], want, cs)
 	}
